@@ -600,6 +600,38 @@ class Ctx:
                          (Fraction(7, 25), Fraction(24, 25)), (Fraction(24, 25), Fraction(7, 25)),
                          (Fraction(44, 125), Fraction(117, 125)), (Fraction(117, 125), Fraction(44, 125))]
 
+    def random_inputs(self, attempt):
+        """a concrete value for every harness input (hint-guided, unit pairs on the unit circle); used only to look for a
+        counterexample by running the real code when the solver answered `unknown`"""
+        import random
+        rng = self.opts.get("_rng2")
+        if rng is None:
+            rng = random.Random(int(os.environ.get("VERIF_SEED", "0") or 0) + 777)
+            self.opts["_rng2"] = rng
+        hv = self.hints.get("values", {})
+        positive = set(self.hints.get("positive", []))
+        out = {}
+        in_unit = set()
+        for a, b in self.hints.get("unit", []):
+            ang = rng.uniform(-math.pi, math.pi)
+            if a in hv and b in hv and attempt % 2 == 0:
+                ang = math.atan2(hv[b], hv[a]) + rng.uniform(-0.4, 0.4)
+            out[a], out[b] = math.cos(ang), math.sin(ang)
+            in_unit |= {a, b}
+        for n in self.inputs:
+            if n in in_unit:
+                continue
+            if n in hv and attempt % 2 == 0:
+                v = hv[n] * (1 + rng.uniform(-0.3, 0.3)) + rng.uniform(-0.05, 0.05)
+            else:
+                v = rng.uniform(-3, 3)
+            if n in positive:
+                v = abs(v) + 0.05
+                if attempt % 3 == 2:
+                    v *= 10 ** rng.uniform(-4, 3)      # also very small / large positive factors (units, scales)
+            out[n] = v
+        return out
+
     def float_exact_model(self, constraints, timeout_ms=10000):
         """model of `constraints` in which every hinted unit vector is one of a few vectors whose norms and mutual dot
         products are exact in IEEE doubles (finite-domain search done by the solver)."""
@@ -1267,9 +1299,12 @@ def decide(c, claim, extra=None):
     if len(levels) > 1 and c.opts.get("relax", True):
         # cheap first shot: linear relaxation of the exact level
         try:
-            if relaxation_unsat(c._slice(seeds, levels[-1]) + extra + [neg]):
+            cons0 = c._slice(seeds, levels[-1]) + extra + [neg]
+            if relaxation_unsat(cons0):
                 c.stats.relaxed_unsat = getattr(c.stats, "relaxed_unsat", 0) + 1
                 c.stats.queries["unsat"] += 1
+                if c.opts.get("cross_check"):
+                    cross_check_unsat(c, cons0)
                 return "unsat", None, levels[-1], time.time() - t0
         except z3.Z3Exception:
             pass
@@ -1278,10 +1313,47 @@ def decide(c, claim, extra=None):
         cons = c._slice(seeds, level) + extra + [neg]
         r, m = c.solve(cons, tmo, want_model=True)
         if r == "unsat":
+            if c.opts.get("cross_check"):
+                cross_check_unsat(c, cons)
             return "unsat", None, level, time.time() - t0
         if final:
             return r, m, level, time.time() - t0
     raise AssertionError
+
+
+def cross_check_unsat(c, cons):
+    """second opinion on an `unsat` verdict: the same query, exported as SMT-LIB2, decided by the cvc5 binary (QF_NRA / with
+    ite, 20 s cap).  cvc5 `unsat` = agreement, `sat` = disagreement (recorded; the driver turns it into exit 2),
+    timeout / unknown / unsupported = recorded, not counted as agreement."""
+    import subprocess
+    import tempfile
+    st = c.stats
+    cc = st.__dict__.setdefault("cross", dict(agree=0, disagree=0, undecided=0, seconds=0.0))
+    if cc["agree"] + cc["disagree"] + cc["undecided"] >= c.opts.get("cross_check_max", 40):
+        return
+    s = z3.Solver()
+    s.add(*cons)
+    t0 = time.time()
+    try:
+        with tempfile.NamedTemporaryFile("w", suffix=".smt2", delete=False) as f:
+            f.write("(set-logic ALL)\n" + s.to_smt2())
+            name = f.name
+        out = subprocess.run(["cvc5", "--tlimit=20000", name], capture_output=True, text=True, timeout=40).stdout.strip().splitlines()
+        first = out[0].strip() if out else "?"
+    except Exception:  # noqa
+        first = "?"
+    finally:
+        try:
+            os.remove(name)
+        except Exception:  # noqa
+            pass
+    cc["seconds"] += time.time() - t0
+    if first == "unsat":
+        cc["agree"] += 1
+    elif first == "sat":
+        cc["disagree"] += 1
+    else:
+        cc["undecided"] += 1
 
 
 def full_model(c, extra, known=None, timeout_ms=None):
